@@ -398,6 +398,15 @@ def run_replay(path, timeout=600):
 def main(mod, tier, seed):
     t_start = time.time()
     prop = mod.PROP
+    # scratch files of the code under test (CompiledSimulation builds its C in a mkdtemp directory that worker processes never
+    # get to delete) go to a private directory that is removed when the run ends
+    import atexit
+    import shutil
+    import tempfile
+    scratch = tempfile.mkdtemp(prefix='vf_%s_' % prop)
+    tempfile.tempdir = scratch
+    os.environ['TMPDIR'] = scratch
+    atexit.register(shutil.rmtree, scratch, True)
     cases = mod.cases(tier, seed)
     flt = os.environ.get('VERIF_CASE_FILTER')
     if flt:   # development aid only
